@@ -38,12 +38,13 @@ CONSTANTS Side,          \* "writer" | "reader"
 
 VARIABLES given, buffered, emitted, fin,       \* writer
           delivered, eof, lastRet,             \* reader
-          script, nEmpty, nFlush
-vars == <<given, buffered, emitted, fin, delivered, eof, lastRet, script, nEmpty, nFlush>>
+          script, nEmpty, nFlush,
+          fwd                                  \* a silent Forward step happened (only used to export each script once)
+vars == <<given, buffered, emitted, fin, delivered, eof, lastRet, script, nEmpty, nFlush, fwd>>
 
 Init == /\ given = 0 /\ buffered = 0 /\ emitted = 0 /\ fin = FALSE
         /\ delivered = 0 /\ eof = FALSE /\ lastRet = 0
-        /\ script = <<>> /\ nEmpty = 0 /\ nFlush = 0
+        /\ script = <<>> /\ nEmpty = 0 /\ nFlush = 0 /\ fwd = FALSE
 
 Last == IF script = <<>> THEN <<"none">> ELSE script[Len(script)]
 More == Len(script) < MaxCalls
@@ -56,17 +57,18 @@ Write(k) ==
   /\ given' = given + k
   /\ buffered' = buffered + k
   /\ script' = Append(script, <<"w", k>>)
-  /\ UNCHANGED <<emitted, fin, nEmpty, nFlush>> /\ RUnch
+  /\ UNCHANGED <<emitted, fin, nEmpty, nFlush, fwd>> /\ RUnch
 
 EmptyWrite ==
   /\ Side = "writer" /\ ~fin /\ More /\ nEmpty < MaxEmpty /\ Last[1] # "e"
   /\ script' = Append(script, <<"e", 0>>) /\ nEmpty' = nEmpty + 1
-  /\ UNCHANGED <<given, buffered, emitted, fin, nFlush>> /\ RUnch
+  /\ UNCHANGED <<given, buffered, emitted, fin, nFlush, fwd>> /\ RUnch
 
 Forward(j) ==   \* the writer encodes the oldest j buffered units into the sink (no caller-visible event)
   /\ Side = "writer" /\ ~fin /\ j >= 1 /\ j <= buffered
   /\ emitted' = emitted + j
   /\ buffered' = buffered - j
+  /\ fwd' = TRUE
   /\ UNCHANGED <<given, fin, script, nEmpty, nFlush>> /\ RUnch
 
 Flush ==
@@ -74,13 +76,13 @@ Flush ==
   /\ IF FlushDrains THEN emitted' = emitted + buffered /\ buffered' = 0
                     ELSE UNCHANGED <<emitted, buffered>>
   /\ script' = Append(script, <<"f", 0>>) /\ nFlush' = nFlush + 1
-  /\ UNCHANGED <<given, fin, nEmpty>> /\ RUnch
+  /\ UNCHANGED <<given, fin, nEmpty, fwd>> /\ RUnch
 
 Finish ==
   /\ Side = "writer" /\ ~fin /\ given = N
   /\ emitted' = emitted + buffered /\ buffered' = 0 /\ fin' = TRUE
-  /\ (Export /\ emitted = 0) => PrintT(ToJson(script))      \* each script once: the run without Forward steps
-  /\ UNCHANGED <<given, script, nEmpty, nFlush>> /\ RUnch
+  /\ (Export /\ ~fwd) => PrintT(ToJson(script))             \* each script once: the run without Forward steps
+  /\ UNCHANGED <<given, script, nEmpty, nFlush, fwd>> /\ RUnch
 
 \* ------------------------------------------------------------------ reader
 Left == N - delivered
@@ -92,17 +94,17 @@ Read(n, k) ==     \* destination of n units (n >= 1), k units returned
   /\ delivered' = delivered + k /\ eof' = (k = 0) /\ lastRet' = k
   /\ script' = Append(script, <<"r", n>>)
   /\ (Export /\ k = 0) => PrintT(ToJson(script'))
-  /\ UNCHANGED <<nEmpty, nFlush>> /\ WUnch
+  /\ UNCHANGED <<nEmpty, nFlush, fwd>> /\ WUnch
 
 ZeroRead ==       \* destination of length 0: returns 0, nothing else happens
   /\ Side = "reader" /\ ~eof /\ More /\ nEmpty < MaxEmpty /\ Last # <<"r", 0>>
   /\ lastRet' = 0
   /\ script' = Append(script, <<"r", 0>>) /\ nEmpty' = nEmpty + 1
-  /\ UNCHANGED <<delivered, eof, nFlush>> /\ WUnch
+  /\ UNCHANGED <<delivered, eof, nFlush, fwd>> /\ WUnch
 
 ReadAfterEof(n) ==   \* end of stream is sticky
   /\ Side = "reader" /\ eof /\ lastRet' = 0
-  /\ UNCHANGED <<delivered, eof, script, nEmpty, nFlush>> /\ WUnch
+  /\ UNCHANGED <<delivered, eof, script, nEmpty, nFlush, fwd>> /\ WUnch
 
 Next ==
   \/ \E k \in WriteSizes : Write(k)
